@@ -65,6 +65,15 @@ func configsA(quick bool) []*CfgA {
 		c.Menu2 = []string{"A"}
 		c.Horizon = 125
 	})
+	// a deviation value that is not a "round" number of basis points (the chain assigns 58 bp at power factor 51
+	// under its default parameters): moves of exactly 58 bp, one unit less
+	add("dev58-i60-cd30-p3-lag2", func(c *CfgA) {
+		c.DevBP = 58
+		c.Val = 1
+		c.Lat = []int{1}
+		c.Menu = []string{"A", "Ahi-1", "Ahi", "Adn"}
+		c.Horizon = 90
+	})
 	// feed-list change late in a cycle: A's interval shrinks from 120 to 60 at the update block of tick 108, after the
 	// daemon has polled many times since its last submission (whatever it remembers about that submission is in play)
 	add("revote-shrink-late", func(c *CfgA) {
@@ -407,6 +416,8 @@ func init() {
 				r.Required = requiredA
 			case "b":
 				r.Required = requiredB
+			case "c":
+				r.Required = nil
 			default:
 				r.Required = append(append([]string{}, requiredA...), requiredB...)
 			}
@@ -415,13 +426,16 @@ func init() {
 			}
 			dlA := r.Deadline(6*time.Minute, 25*time.Minute)
 			dlB := r.Deadline(12*time.Minute, 55*time.Minute)
-			if part != "b" {
+			if part == "" || part == "c" {
+				execC(r, quick)
+			}
+			if part != "b" && part != "c" {
 				execA(r, quick, dlA)
 			}
-			if part != "a" {
+			if part != "a" && part != "c" {
 				execB(r, quick, dlB)
 			}
-			r.Rule = "part a: a case is one daemon poll or one block step executed on the real code from a distinct state (feeds+oracle store content, in-flight submissions); distinct_nontrivial counts distinct states; part b: a case is one complete controlled execution, distinct outcomes are added"
+			r.Rule = "part a: a case is one daemon poll or one block step executed on the real code from a distinct state (feeds+oracle store content, in-flight submissions); distinct_nontrivial counts distinct states; part b: a case is one complete controlled execution, distinct outcomes are added; part c: a case is one evaluation of the daemon's deviation predicate against the exact integer reference"
 			keys := make([]string, 0, len(r.Outcomes))
 			for k := range r.Outcomes {
 				keys = append(keys, k)
